@@ -6,6 +6,7 @@ import (
 	"fmt"
 	"go/token"
 	"go/types"
+	"strconv"
 	"strings"
 
 	"golang.org/x/tools/go/ssa"
@@ -1558,4 +1559,408 @@ func runC20Reset(c *Ctx) {
 			c.anchorMissing("reset in (*" + typ + ").VisitJobPost")
 		}
 	}
+}
+
+// ---- rules after the third hunt round ----
+
+func init() {
+	register(&Rule{ID: "C06.OPENMERGE", Min: 1, Doc: "merging with an open object does not keep the specific type of a property the open object may also have", Run: runC06OpenMerge})
+	register(&Rule{ID: "C06.OPENINCLUDE", Min: 1, Doc: "an include element that is an open object widens the matrix value types like an element of unknown type", Run: runC06OpenInclude})
+	register(&Rule{ID: "C05.JOBSCALL", Min: 1, Doc: "the outputs of a job that calls a reusable workflow are typed alike in the needs and the jobs context", Run: runC05JobsCall})
+	register(&Rule{ID: "C08.JSONKEYS", Min: 1, Doc: "JSON keys that collide after lower-casing are not folded in an order that depends on their spelling", Run: runC08JSONKeys})
+	register(&Rule{ID: "C04.IFEOF", Min: 1, Doc: "an error at the end marker appended to a bare if: condition is reported inside the condition", Run: runC04IfEOF})
+	register(&Rule{ID: "C07.KEYPOS", Min: 1, Doc: "undefined with: keys kept outside Inputs are reported at the key", Run: runC07KeyPos})
+}
+
+func runC06OpenMerge(c *Ctx) {
+	p := c.P
+	fn := p.Method("ObjectType", "Merge")
+	if fn == nil {
+		c.anchorMissing("(*ObjectType).Merge")
+		return
+	}
+	// stores into the result's property map of a value taken unmerged from one operand's Props
+	unmerged := 0
+	var pos token.Pos
+	eachInstr(fn, func(_ *ssa.BasicBlock, _ int, in ssa.Instruction) {
+		mu, ok := in.(*ssa.MapUpdate)
+		if !ok {
+			return
+		}
+		if _, isMake := mu.Map.(*ssa.MakeMap); !isMake {
+			return
+		}
+		v := mu.Value
+		// a range value or a look-up result of an operand's Props, without a Merge in between
+		switch x := v.(type) {
+		case *ssa.Extract:
+			if _, isNext := x.Tuple.(*ssa.Next); isNext {
+				unmerged++
+				pos = mu.Pos()
+			}
+		case *ssa.Lookup:
+			unmerged++
+			pos = mu.Pos()
+		}
+	})
+	usesMappedOfOther := false
+	eachInstr(fn, func(_ *ssa.BasicBlock, _ int, in ssa.Instruction) {
+		call, ok := in.(*ssa.Call)
+		if !ok || !call.Call.IsInvoke() || call.Call.Method.Name() != "Merge" {
+			return
+		}
+		// l.Merge(other.Mapped) / r.Merge(ty.Mapped) where the receiver is a property
+		if f, _ := fieldLoad(call.Call.Args[0]); f == "ObjectType.Mapped" {
+			switch rv := call.Call.Value.(type) {
+			case *ssa.Lookup:
+				usesMappedOfOther = true
+			case *ssa.Extract:
+				if _, isNext := rv.Tuple.(*ssa.Next); isNext {
+					usesMappedOfOther = true
+				}
+				if _, isLk := rv.Tuple.(*ssa.Lookup); isLk {
+					usesMappedOfOther = true
+				}
+			}
+		}
+	})
+	construct := "(*ObjectType).Merge|property known on one side only"
+	if unmerged > 0 && !usesMappedOfOther {
+		c.bad(construct, pos, "a property that only one operand declares keeps its specific type although the other operand may be open (any property of unknown type): `(fromJSON('{\"a\":1}') || matrix.cfg).a.b` is accepted when matrix.cfg is closed or any, and rejected when it is an open object")
+	} else {
+		c.ok(construct, fn.Pos(), "one-sided properties are merged with the other operand's mapped type")
+	}
+}
+
+func runC06OpenInclude(c *Ctx) {
+	p := c.P
+	fn := p.Method("RuleExpression", "checkMatrix")
+	if fn == nil {
+		c.anchorMissing("(*RuleExpression).checkMatrix")
+		return
+	}
+	construct := "(*RuleExpression).checkMatrix|include element that is an open object"
+	if len(findCalls(fn, "(*ObjectType).IsStrict"))+len(findCalls(fn, "(*ObjectType).IsLoose")) > 0 {
+		c.ok(construct, fn.Pos(), "the openness of the element's type is consulted")
+	} else {
+		c.bad(construct, fn.Pos(), "an include element such as ${{ github.event }} (an open object) is merged like a closed one: the row types stay precise, so `matrix.os.name` is rejected although the element may redefine os")
+	}
+}
+
+func runC05JobsCall(c *Ctx) {
+	p := c.P
+	jobs := p.Method("RuleExpression", "checkWorkflowCallOutputs")
+	needs := p.Method("RuleExpression", "populateDependantNeedsTypes")
+	if jobs == nil || needs == nil {
+		c.anchorMissing("(*RuleExpression).checkWorkflowCallOutputs / populateDependantNeedsTypes")
+		return
+	}
+	n := len(findCalls(needs, "(*RuleExpression).getWorkflowCallOutputsType"))
+	j := len(findCalls(jobs, "(*RuleExpression).getWorkflowCallOutputsType"))
+	construct := "(*RuleExpression).checkWorkflowCallOutputs|outputs of a job that calls a reusable workflow"
+	switch {
+	case n == 0:
+		c.anchorMissing("getWorkflowCallOutputsType in populateDependantNeedsTypes")
+	case j > 0:
+		c.ok(construct, jobs.Pos(), "typed by getWorkflowCallOutputsType, as in the needs context")
+	default:
+		c.bad(construct, jobs.Pos(), "the needs context types them from the called workflow's declared outputs, the jobs context as an open object: `jobs.call.outputs.nope` is accepted where `needs.call.outputs.nope` is reported")
+	}
+}
+
+func runC08JSONKeys(c *Ctx) {
+	p := c.P
+	fn := p.Func("typeOfJSONValue")
+	if fn == nil {
+		c.anchorMissing("typeOfJSONValue")
+		return
+	}
+	construct := "typeOfJSONValue|keys that collide after lower-casing"
+	bad := false
+	n := 0
+	eachInstr(fn, func(b *ssa.BasicBlock, _ int, in ssa.Instruction) {
+		call, ok := in.(*ssa.Call)
+		if !ok || !call.Call.IsInvoke() || call.Call.Method.Name() != "Merge" {
+			return
+		}
+		// a Merge that is only executed when the lower-cased key is already present
+		for ifi, outcome := range controllingConds(b) {
+			if ex, ok := ifi.Cond.(*ssa.Extract); ok && ex.Index == 1 && outcome {
+				if lk, ok := ex.Tuple.(*ssa.Lookup); ok && lk.CommaOk {
+					if _, isMake := lk.X.(*ssa.MakeMap); isMake {
+						bad = true
+					}
+				}
+			}
+		}
+	})
+	eachInstr(fn, func(_ *ssa.BasicBlock, _ int, in ssa.Instruction) {
+		if lk, ok := in.(*ssa.Lookup); ok && lk.CommaOk {
+			if _, isMake := lk.X.(*ssa.MakeMap); isMake {
+				n++
+			}
+		}
+	})
+	switch {
+	case n == 0:
+		c.anchorMissing("collision test in typeOfJSONValue")
+	case bad:
+		c.bad(construct, fn.Pos(), "colliding keys are folded with Merge in the sort order of their original spellings, and Merge is not associative: `{\"AB\":1,\"aB\":true,\"ab\":\"s\"}.ab` and the same literal with the last key spelled `Ab` get different types")
+	default:
+		c.ok(construct, fn.Pos(), "a collision of different types gives any, whatever the spellings")
+	}
+}
+
+func runC04IfEOF(c *Ctx) {
+	p := c.P
+	fn := p.Method("RuleExpression", "checkIfCondition")
+	if fn == nil {
+		c.anchorMissing("(*RuleExpression).checkIfCondition")
+		return
+	}
+	// ExprError.Offset compared with (or reduced by) the length of the condition
+	clamped := false
+	eachInstr(fn, func(_ *ssa.BasicBlock, _ int, in ssa.Instruction) {
+		bo, ok := in.(*ssa.BinOp)
+		if !ok {
+			return
+		}
+		f, _ := fieldLoad(bo.X)
+		if f != "ExprError.Offset" {
+			return
+		}
+		if call, ok := bo.Y.(*ssa.Call); ok {
+			if bi, ok := call.Call.Value.(*ssa.Builtin); ok && bi.Name() == "len" {
+				if g, _ := fieldLoad(call.Call.Args[0]); g == "String.Value" {
+					clamped = true
+				}
+			}
+		}
+	})
+	construct := "(*RuleExpression).checkIfCondition|error at the appended end marker"
+	if clamped {
+		c.ok(construct, fn.Pos(), "an error offset beyond the condition is moved back to its end")
+	} else {
+		c.bad(construct, fn.Pos(), "the condition is lexed with }} appended; an unterminated string literal swallows it, and the error is reported two columns behind the end of the line")
+	}
+}
+
+func runC07KeyPos(c *Ctx) {
+	p := c.P
+	fn := p.Method("RuleAction", "checkAction")
+	if fn == nil {
+		c.anchorMissing("(*RuleAction).checkAction")
+		return
+	}
+	read := map[string]bool{}
+	eachInstr(fn, func(_ *ssa.BasicBlock, _ int, in ssa.Instruction) {
+		if fa, ok := in.(*ssa.FieldAddr); ok {
+			read[fieldAddrName(fa)] = true
+		}
+	})
+	construct := "(*RuleAction).checkAction|position of an undefined args/entrypoint input"
+	if read["ExecAction.entrypointKeyPos"] && read["ExecAction.argsKeyPos"] {
+		c.ok(construct, fn.Pos(), "reported at the positions of the keys recorded by the parser")
+	} else {
+		c.bad(construct, fn.Pos(), "the keys' positions are not available: `input \"args\" is not defined` is reported at the value, so it moves when only the value moves, unlike every other undefined input")
+	}
+}
+
+func init() {
+	register(&Rule{ID: "C17.CTRL", Min: 1, Doc: "ASCII control characters are reported in ref filters", Run: runC17Ctrl})
+}
+
+func runC17Ctrl(c *Ctx) {
+	p := c.P
+	fn := p.Method("globValidator", "validateNext")
+	if fn == nil {
+		c.anchorMissing("(*globValidator).validateNext")
+		return
+	}
+	lo, del := false, false
+	eachInstr(fn, func(_ *ssa.BasicBlock, _ int, in ssa.Instruction) {
+		bo, ok := in.(*ssa.BinOp)
+		if !ok {
+			return
+		}
+		if k, ok := constInt(bo.Y); ok {
+			if k == 0x20 && (bo.Op == token.LSS || bo.Op == token.GEQ) {
+				lo = true
+			}
+			if k == 0x7f && (bo.Op == token.EQL || bo.Op == token.NEQ) {
+				del = true
+			}
+		}
+	})
+	construct := "(*globValidator).validateNext|control characters in a ref filter"
+	if lo && del {
+		c.ok(construct, fn.Pos(), "characters below U+0020 and DEL are tested")
+	} else {
+		c.bad(construct, fn.Pos(), "only space, tab, ~, ^ and : are tested: `branches: [\"a\\x7Fb\"]`, which git-check-ref-format forbids in the same rule as those, is accepted")
+	}
+}
+
+func init() {
+	register(&Rule{ID: "C11.STARIDX", Min: 1, Doc: "the string index ['*'] is not taken for the object filter", Run: runC11StarIdx})
+}
+
+func runC11StarIdx(c *Ctx) {
+	p := c.P
+	fn := p.Method("UntrustedInputChecker", "OnVisitNodeLeave")
+	if fn == nil {
+		c.anchorMissing("(*UntrustedInputChecker).OnVisitNodeLeave")
+		return
+	}
+	guarded := false
+	eachInstr(fn, func(_ *ssa.BasicBlock, _ int, in ssa.Instruction) {
+		bo, ok := in.(*ssa.BinOp)
+		if !ok || (bo.Op != token.EQL && bo.Op != token.NEQ) {
+			return
+		}
+		if s, ok := constString(bo.Y); ok && s == "*" {
+			if f, _ := fieldLoad(bo.X); f == "StringNode.Value" {
+				guarded = true
+			}
+		}
+	})
+	construct := "(*UntrustedInputChecker).OnVisitNodeLeave|string index '*'"
+	if guarded {
+		c.ok(construct, fn.Pos(), "a string index equal to * is not looked up in the tree, whose array elements are stored under that name")
+	} else {
+		c.bad(construct, fn.Pos(), "the search tree stores the elements of an array under the child name \"*\" and a string index is looked up by name: `github.event.commits['*'].message`, which reads a property literally named *, is reported as untrusted input")
+	}
+}
+
+// ---- C08.SPELLCMP ----
+
+// The entries of a name-keyed map carry the spelling the user wrote in a field (ActionMetadataInput.Name, Input.Name,
+// Job.ID, ...); the key of the map is its lower-case image. Comparing the spelling with a constant name only succeeds for
+// one letter case of the definition. The spelling may reach the comparison through parameters.
+func init() {
+	register(&Rule{ID: "C08.SPELLCMP", Min: 0, Doc: "the spelling kept beside a case-insensitive key is never compared with a constant name", Run: runC08SpellCmp})
+}
+
+func spellingFields(p *Prog) map[string]bool {
+	out := map[string]bool{}
+	add := func(t types.Type) {
+		if pt, ok := t.(*types.Pointer); ok {
+			t = pt.Elem()
+		}
+		nm, ok := t.(*types.Named)
+		if !ok {
+			return
+		}
+		st, ok := nm.Underlying().(*types.Struct)
+		if !ok {
+			return
+		}
+		for i := 0; i < st.NumFields(); i++ {
+			f := st.Field(i)
+			if f.Name() != "Name" && f.Name() != "ID" {
+				continue
+			}
+			ts := typeStr(f.Type())
+			if ts == "string" || ts == "*String" {
+				out[nm.Obj().Name()+"."+f.Name()] = true
+			}
+		}
+	}
+	for _, fn := range p.Funcs {
+		eachInstr(fn, func(_ *ssa.BasicBlock, _ int, in ssa.Instruction) {
+			var mt types.Type
+			switch x := in.(type) {
+			case *ssa.MapUpdate:
+				mt = x.Map.Type()
+			case *ssa.Lookup:
+				mt = x.X.Type()
+			default:
+				return
+			}
+			if _, ok := nameKeyedMapTypes[typeStr(mt)]; !ok {
+				return
+			}
+			if m, ok := mt.Underlying().(*types.Map); ok {
+				add(m.Elem())
+			}
+		})
+	}
+	return out
+}
+
+func runC08SpellCmp(c *Ctx) {
+	p := c.P
+	fields := spellingFields(p)
+	if len(fields) < 8 {
+		c.anchorMissing(fmt.Sprintf("spelling fields of name-keyed map entries (found %d)", len(fields)))
+		return
+	}
+	// isSpelling: v is a load of a spelling field, the Value of a *String loaded from one, or a parameter that receives one
+	var isSpelling func(v ssa.Value, depth int) (string, bool)
+	isSpelling = func(v ssa.Value, depth int) (string, bool) {
+		if depth > 3 {
+			return "", false
+		}
+		if f, base := fieldLoad(v); f != "" {
+			if fields[f] && typeStr(v.Type()) == "string" {
+				return f, true
+			}
+			if f == "String.Value" {
+				if f2, _ := fieldLoad(base); fields[f2] {
+					return f2 + ".Value", true
+				}
+			}
+			return "", false
+		}
+		if par, ok := v.(*ssa.Parameter); ok {
+			fn := par.Parent()
+			idx := -1
+			for i, q := range fn.Params {
+				if q == par {
+					idx = i
+				}
+			}
+			if idx < 0 {
+				return "", false
+			}
+			for _, e := range p.callersOf(fn) {
+				if e.Site == nil {
+					continue
+				}
+				args := e.Site.Common().Args
+				if e.Site.Common().IsInvoke() {
+					continue
+				}
+				if idx < len(args) {
+					if s, ok := isSpelling(args[idx], depth+1); ok {
+						return s + " passed by " + FuncName(e.Caller.Func), true
+					}
+				}
+			}
+		}
+		return "", false
+	}
+	occ := map[string]int{}
+	for _, fn := range p.Funcs {
+		eachInstr(fn, func(_ *ssa.BasicBlock, _ int, in ssa.Instruction) {
+			bo, ok := in.(*ssa.BinOp)
+			if !ok || (bo.Op != token.EQL && bo.Op != token.NEQ) {
+				return
+			}
+			for _, pr := range [][2]ssa.Value{{bo.X, bo.Y}, {bo.Y, bo.X}} {
+				s, ok := constString(pr[1])
+				if !ok || strings.ToLower(s) == strings.ToUpper(s) {
+					continue // no letter: the comparison does not depend on letter case
+				}
+				src, ok := isSpelling(pr[0], 0)
+				if !ok {
+					continue
+				}
+				k := FuncName(fn) + "|" + src + " == " + strconv.Quote(s)
+				occ[k]++
+				c.bad(fmt.Sprintf("%s#%d", k, occ[k]), bo.Pos(), "the spelling of a case-insensitive name ("+src+") is compared with the constant "+strconv.Quote(s)+": the comparison holds for one letter case of the name only, the map beside it is keyed by the lower-case image")
+				return
+			}
+		})
+	}
+	c.ok("spelling fields never compared with a constant name", token.NoPos, fmt.Sprintf("%d spelling fields of name-keyed map entries; none reaches an == / != / switch against a constant containing a letter", len(fields)))
 }
